@@ -27,8 +27,8 @@ LEVEL = "model_checking"
 MTUS = [23, 24, 64, 185, 517]
 EATT_MTUS = [64, 185, 517]
 DEVIATIONS = ["lost-in-task", "ignore-unknown-request", "drop-malformed", "no-size-check", "answer-commands",
-              "wrong-opcode", "double-response", "two-indications"]
-DESIGN_ACTIONS = ["Open", "Recv", "HandlerOk", "HandlerAttError", "HandlerCrash", "Unsupported", "Malformed", "RefuseServerPdu",
+              "wrong-opcode", "double-response", "two-indications", "refuse_s2c"]
+DESIGN_ACTIONS = ["Open", "Recv", "HandlerOk", "HandlerAttError", "HandlerCrash", "Unsupported", "Malformed",
                   "MtuSet", "AppNotify", "AppIndicate", "IndSend", "IndTimeout", "Quiesce"]
 
 
@@ -457,7 +457,7 @@ def run(ctx, rep):
                 "against the real gatt_server.Server, plus seeded notification/indication/MTU-exchange scenarios; every trace validated by ServerTrace.tla; "
                 "distinct = distinct (bearer, MTU, opcode, shape) stimuli and scenarios")
     rep.assumptions = ["the peer sends one request at a time per bearer (ATT sequential protocol); a repeated Exchange MTU is read most permissively",
-                       "server-role PDUs (responses, notifications, indications) arriving at the server may be ignored or refused (property silent)",
+                       "server-role PDUs (responses, notifications, indications) arriving at the server are non-requests: any reply to them is a violation (clause reply-to-server-role-pdu)",
                        "quiescence = 40 virtual seconds after the stimulus under the virtual-time loop (ATT transaction time-out is 30 s)",
                        "link security is plain in C10 runs (protected attributes are refused); C11 varies it"]
     model_check(ctx, rep)
